@@ -102,7 +102,7 @@ def gen_numbers(ctx):
     rng = ctx.rng
     ints = [0, 1, -1, 7, -42, 2**31, -2**31, 2**53 + 1, 2**63, -2**64, 2**200, -(2**200) + 1, 10**15, 10**16]
     ints += [rng.randint(-10**rng.randint(1, 40), 10**rng.randint(1, 40)) for _ in range(ctx.scale(300, 5000))]
-    floats = [0.0, -0.0, 1.0, -1.5, 1e16, 1e-7, 1e22, 1.7976931348623157e308, 5e-324, 2.2250738585072014e-308,
+    floats = [0.0, -0.0, 1.0, -1.5, 1e16, 1e-7, 1e22, 1.5e-05, 2.5e+16, 6.02e+23, -1.2345e-10, 4.2e-07, 1.7976931348623157e308, 5e-324, 2.2250738585072014e-308,
               0.1, 1 / 3, 2.0**53, 2.0**53 + 2, 123456789.125, 1e100, -1e-100, 3.14]
     for _ in range(ctx.scale(300, 5000)):
         import struct
